@@ -42,7 +42,10 @@ FLOOR_TAGS = ["recv:" + r for r in c02.RECVS] + ["k:" + k for k in KINDS] + ["si
 FLOOR_MONITORS = ["c04:compare", "c04:must-refuse", "c04:operands-unchanged"]
 FP_STRICT = True       # a floating-point event inside the library that the dense computation does not have is a violation (shard.FpMonitor)
 N_RANDOM = {"quick": 42000, "thorough": 600000}
-PYSCALARS = [2, 3, -1, 0, 2.5, True, False, 300, -129, 1e10, 2 ** 64, 10 ** 30, -2 ** 63 - 1, 2 ** 63]      # also python ints beyond every 64-bit type (numpy answers comparisons with them)
+PYSCALARS = [2, 3, -1, 0, 2.5, True, False, 300, -129, 1e10, 2 ** 64, 10 ** 30, -2 ** 63 - 1, 2 ** 63,
+             2.0, 1.0, 0.0, -1.0, 0.5, 3.0, -0.0, float("inf"), float("nan"), 1j, 2 + 0j, 1.5 - 2j, 0j]
+# python floats with an integral value (x ** 2.0, x * 1.0 keep numpy's float result type), python complex numbers (weakly typed like the other python scalars)
+DT_C04 = gen.DT_ALL + ["complex64", "complex128", "longdouble", "float16"]      # also python ints beyond every 64-bit type (numpy answers comparisons with them)
 
 
 def setup(lib):
@@ -181,7 +184,7 @@ def run(case):
         exp = np.full(tot, exp)
     if not same_dtype(g.dtype, exp.dtype):
         return violated("%s has dtype %s, numpy's result dtype is %s" % (describe(), g.dtype, exp.dtype), tags + ["dtype-differs"], got=str(g.dtype), expected=str(exp.dtype))
-    if not same_array(g, exp) and kind in ("col", "collist") and exp.dtype.kind == "f":
+    if not same_array(g, exp) and kind in ("col", "collist") and exp.dtype.kind in "fc":
         # numpy itself has two answers here: power(x, 2.0) with a *scalar* exponent takes a multiplication fast path that can differ
         # in the last bit from power(x, array of 2.0).  "numpy applied to row i and the i-th column entry" is the per-row scalar form.
         rows = gen.split_rows(flat, lens)
@@ -195,6 +198,12 @@ def run(case):
         fin = ~np.isnan(exp)
         if not np.array_equal(np.signbit(g)[fin], np.signbit(exp)[fin]):
             return violated("%s gives %s, numpy row by row gives %s (the signs of zeros differ)" % (describe(), short(g, 200), short(exp, 200)), tags + ["sign-of-zero"], got=g, expected=exp)
+    if same_array(g, exp) and g.dtype.kind == "c" and g.size:
+        for part in ("real", "imag"):
+            gp, ep = getattr(g, part), getattr(exp, part)
+            fin = ~np.isnan(ep)
+            if not np.array_equal(np.signbit(gp)[fin], np.signbit(ep)[fin]):
+                return violated("%s gives %s, numpy row by row gives %s (the signs of zeros in the %s parts differ)" % (describe(), short(g, 200), short(exp, 200), part), tags + ["sign-of-zero"], got=g, expected=exp)
     if not same_array(g, exp):
         return violated("%s gives %s, numpy row by row gives %s" % (describe(), short(g, 200), short(exp, 200)), tags, got=g, expected=exp)
     CTX.tick("c04:operands-unchanged")
@@ -211,6 +220,8 @@ def run(case):
 
 def _vals(rng, dtype, n, vclass):
     k = np.dtype(dtype).kind
+    if k == "f" and np.dtype(dtype).itemsize > 8:
+        dtype = "float64"        # (the case stores python floats; run() widens them)
     if vclass == "nonfinite" and k != "f":
         vclass = "extreme"
     if vclass == "decimal" and k != "f":
@@ -229,7 +240,7 @@ def gen_case(rng, lens, dtype, vclass, uf=None, kind=None, side=None, dtype2=Non
     if kind == "unary":
         return mk_case(lens, dtype, vals, uf or rng.choice(UNARY), "unary", op=op, vclass=vclass)
     uf = uf or rng.choice(BINARY)
-    dtype2 = dtype2 or rng.choice(gen.DT_ALL)
+    dtype2 = dtype2 or rng.choice(DT_C04)
     if kind == "alias":
         return mk_case(lens, dtype, vals, uf, kind, side, rng.choice(["same", "colrev", "colrev", "rowrev"]), dtype, op, vclass)
     if kind == "ra":
@@ -353,7 +364,7 @@ def directed():
 
 def random_case(rng, tier):
     lens, _ = gen.length_vector(rng, tier)
-    dtype = rng.choice(gen.DT_ALL)
+    dtype = rng.choice(DT_C04)
     vclass = rng.choice(["small", "small", "extreme", "nonfinite", "sparse", "decimal"])
     c = gen_case(rng, lens, dtype, vclass)
     if rng.random() < 0.35:
